@@ -23,6 +23,12 @@ class frozenlist(list):  # type: ignore[type-arg]
     def copy(self) -> Any:
         return list(self)
 
+    def __deepcopy__(self, memo: dict[int, Any]) -> Self:
+        # The list is immutable and holds Guppy objects that must keep their identity, so
+        # it can be shared when an AST that refers to it is copied (rebuilding it via
+        # `append` would be rejected anyway)
+        return self
+
     def clear(self, *args: Any, **kwargs: Any) -> None:
         raise GuppyComptimeError(ERROR_MSG)
 
